@@ -150,7 +150,7 @@ def txt_case(draw) -> Dict[str, Any]:
         else:
             kb = bytes(draw(st.lists(key_byte, min_size=1, max_size=9)))
             key = kb.hex()
-        if kb.lower() in seen:
+        while kb.lower() in seen:           # keys are distinct as encoded bytes (a str key and a bytes key may not collide either)
             kb = kb + b'%d' % i
             key = key + '%d' % i if ktype == 'str' else kb.hex()
         seen.add(kb.lower())
